@@ -68,6 +68,9 @@ def schema_units(run, with_big=True):
             {"name": "l", "id": 2, "type": ("arr", ("i", 8), 2), "range": (0, 1)},
             {"name": "f", "id": 3, "type": ("f32",), "range": (-1.5, 1.5), "unit": "V"},
             {"name": "s", "id": 4, "type": ("str",), "unit": "x"}]},
+        # integer widths written with a leading zero (u05, i08): the same types as u5 and i8
+        shapes.mk_struct("Padded", [("a", 0, ("u", 1, "u01")), ("b", 1, ("i", 8, "i08")), ("c", 2, ("opt", ("u", 9, "u09"))),
+                                    ("d", 3, ("arr", ("i", 3, "i03"), 2)), ("e", 4, ("dyn", ("u", 5, "u05"))), ("z", 5, ("u", 7, "u07"))]),
         # fixed arrays longer than 256 elements (beyond CPython's small-int cache)
         shapes.mk_struct("Arr257", [("a", 0, ("u", 3)), ("d", 1, ("arr", ("u", 1), 257)), ("z", 2, ("i", 4))]),
         shapes.mk_struct("Arr300", [("d", 0, ("arr", ("i", 5), 300)), ("e", 1, ("arr", ("arr", ("u", 2), 260), 2))]),
@@ -78,7 +81,12 @@ def schema_units(run, with_big=True):
             shapes.mk_struct("BigStr", [("a", 0, ("u", 3)), ("s", 1, ("str",)), ("z", 2, ("u", 2))]),
             shapes.mk_struct("BigU1", [("a", 0, ("u", 1)), ("d", 1, ("dyn", ("u", 1))), ("z", 2, ("i", 4))]),
             shapes.mk_struct("BigU8", [("d", 0, ("dyn", ("u", 8))), ("z", 1, ("u", 7))]),
+            # hundreds of Optionals in one message, absent and present (each is one level of nesting, entered and left)
+            shapes.mk_struct("BigOpt", [("a", 0, ("u", 3)), ("d", 1, ("dyn", ("opt", ("u", 8)))), ("e", 2, ("arr", ("opt", ("i", 5)), 300)),
+                                        ("f", 3, ("dyn", ("struct", "BigOptIn"))), ("z", 4, ("u", 2))]),
+            shapes.mk_struct("BigOptIn", [("o", 0, ("opt", ("u", 4))), ("p", 1, ("opt", ("str",)))]),
         ]
+        big = [big[-1]] + big[:-1]
         units.append(("big", big, 1, {"big": True}))
     return units
 
@@ -97,15 +105,46 @@ def unit_cases(run, unit):
             vals = vals[:3]
             if name == "BigStr":
                 vals.append({"a": 5, "s": "".join(chr(32 + i % 95) for i in range(300)), "z": 2})
+                vals.append({"a": 1, "s": "".join(chr(32 + i % 95) for i in range(65536 + 64)), "z": 3})  # a count that needs more than 16 bits
             elif name == "BigU1":
                 rr = run.rng_ns("codec", "big", name)
                 vals.append({"a": 1, "d": [rr.getrandbits(1) for _ in range(run.pick(300, 70000))], "z": -3})
             elif name == "BigU8":
                 rr = run.rng_ns("codec", "big", name)
-                vals.append({"d": [rr.getrandbits(8) for _ in range(run.pick(260, 66000))], "z": 99})
+                vals.append({"d": [rr.getrandbits(8) for _ in range(run.pick(65537, 66000))], "z": 99})
+            elif name == "BigOpt":
+                rr = run.rng_ns("codec", "big", name)
+                for nn, ns in ((300, 0), (0, 300), (200, 200)):
+                    d = [None] * nn + [rr.getrandbits(8) for _ in range(ns)]
+                    rr.shuffle(d)
+                    vals.append({"a": 5, "d": d, "e": [None if rr.random() < 0.7 else rr.randint(-16, 15) for _ in range(300)],
+                                 "f": [{"o": None, "p": None} if rr.random() < 0.8 else {"o": 3, "p": "x"} for _ in range(nn // 2)], "z": 1})
         for i, v in enumerate(vals):
             out.append((name, v, sig + "|" + value_sig(v)))
     return text, sch, out
+
+
+def intern_equal(v, pool=None):
+    """A value equal to v in which equal dict / list sub-values are ONE object reached several times (what
+    `[row] * n`, `{"first": p, "last": p}` or a shared empty list give a caller).  Sharing is no cycle."""
+    pool = {} if pool is None else pool
+    if isinstance(v, dict):
+        out = {k: intern_equal(x, pool) for k, x in v.items()}
+    elif isinstance(v, list):
+        out = [intern_equal(x, pool) for x in v]
+    else:
+        return v
+    return pool.setdefault(repr(out), out)
+
+
+def shares_objects(v, seen=None):
+    seen = set() if seen is None else seen
+    if isinstance(v, (dict, list)):
+        if id(v) in seen:
+            return True
+        seen.add(id(v))
+        return any(shares_objects(x, seen) for x in (v.values() if isinstance(v, dict) else v))
+    return False
 
 
 def value_sig(v):
